@@ -51,7 +51,7 @@ func (lb *LoadBalancer) ListBackends() []BackendInfo {
 			Name:              b.Name,
 			Address:           b.URL.String(),
 			Healthy:           b.IsHealthy,
-			ActiveConnections: b.ActiveConnections,
+			ActiveConnections: b.GetActiveConnections(),
 			Weight:            b.Weight,
 		}
 		b.Mutex.RUnlock()
@@ -290,6 +290,10 @@ func (lb *LoadBalancer) setupCircuitBreaker(cfg *config.Config) {
 
 func (lb *LoadBalancer) startHealthChecks() {
 	if lb.healthChecks.activeEnabled {
+		// The checker goroutine is itself counted in healthCheckWg: every Add for a probe
+		// then happens while the counter is non-zero, never concurrently with the Wait
+		// in Stop on a zero counter (which sync.WaitGroup forbids).
+		lb.healthCheckWg.Add(1)
 		go lb.startActiveHealthChecks()
 		logging.L().Info().Dur("interval", lb.healthChecks.activeInterval).Msg("active health checks enabled")
 	} else {
@@ -305,6 +309,7 @@ func (lb *LoadBalancer) startHealthChecks() {
 
 // startActiveHealthChecks starts a goroutine that periodically checks the health of all backends
 func (lb *LoadBalancer) startActiveHealthChecks() {
+	defer lb.healthCheckWg.Done()
 	ticker := time.NewTicker(lb.healthChecks.activeInterval)
 	defer ticker.Stop()
 
@@ -318,7 +323,6 @@ func (lb *LoadBalancer) startActiveHealthChecks() {
 		select {
 		case <-lb.ctx.Done():
 			logging.L().Info().Msg("stopping active health checks")
-			lb.healthCheckWg.Wait()
 			return
 		case <-ticker.C:
 			lb.checkBackendsHealth()
